@@ -2,6 +2,7 @@
 import ast
 
 from ..core import astutil as A
+from ..core import boolx
 from ..core.model import dotted
 
 META = {
@@ -58,6 +59,24 @@ def run(ctx):
         g = guards_of(c, fn)
         ctx.check("R1", rf, set(guard) <= g, f"guard:{short}", f"{short} is added under a guard on {guard or 'nothing'}",
                   f"{short} is guarded by {sorted(g)}, expected a guard on {guard}", node=c)
+        # ... and by nothing else: once the guarded attributes are set, the restriction is always added
+        fixed = {f"self.{x} is None": False for x in guard}
+        if short == "VersionMatch":
+            fixed["self.op == '=*'"] = False
+        forced = True
+        child = c
+        for par in A.parents(c):
+            if par is fn:
+                break
+            if isinstance(par, ast.If):
+                in_body = any(child is x or A.contains_node(x, child) for x in par.body)
+                out = boolx.forced_outcome(par.test, {k: v for k, v in fixed.items() if k in boolx.atoms(par.test)})
+                if out is None or out != in_body:
+                    forced = False
+                    why = A.unparse(par.test)
+            child = par
+        ctx.check("R1", rf, forced, f"guard-only:{short}", f"{short} is added whenever {guard or 'the atom'} is set (no further condition)",
+                  f"{short} is skipped under an extra condition (`{why if not forced else ''}`): the atom stops constraining that field for some inputs", node=c)
     vm = [c for s, c in built if s == "VersionMatch"]
     if vm:
         kws = {k.arg: A.unparse(k.value) for k in vm[0].keywords}
@@ -100,6 +119,13 @@ def run(ctx):
         ctx.check("R2", rf, boundary_aware, "glob-raw-prefix",
                   "the =* operator matches on version-component boundaries",
                   f"the =* arm hands `{A.unparse(c.args[0]) if c.args else '?'}` to the plain string-prefix matcher {dotted(c.func)}: =cat/pkg-1* matches cat/pkg-10", node=c)
+    pr = [c for s_ in arm for c in A.calls(s_) if (dotted(c.func) or "").endswith("PackageRestriction")]
+    if pr:
+        a0 = A.try_literal(pr[0].args[0]) if pr[0].args else None
+        inner = [A.unparse(x) for c in raw for x in c.args]
+        ctx.check("R2", rf, a0 == "fullver" and inner == ["self.fullver"], "glob-operands",
+                  "the =* arm compares the package's fullver with the atom's own fullver",
+                  f"the =* arm compares attribute {a0!r} with {inner}: a revision written in the glob atom (=cat/pkg-1.2-r1*) is ignored or the wrong field is matched", node=pr[0])
     ctx.require(raw or any("VersionMatch" in A.unparse(s) or "Glob" in A.unparse(s) for s in arm), "atom.restrictions: =* arm builds no recognisable matcher")
     ctx.floor("R2", 1) if raw else None
 
@@ -186,30 +212,56 @@ def run(ctx):
     udcalls = [[A.unparse(a) for a in c.args] for c in A.calls(pn.node) if dotted(c.func) == "UseDepDefault"]
     ctx.check("R3", pn, sorted(udcalls) == sorted([["False", "*default_off"], ["True", "*default_on"]]), "default-calls",
               "defaults build UseDepDefault(False, *default_off) and UseDepDefault(True, *default_on)", f"UseDepDefault calls are {udcalls}")
-    # (c) sibling case split of _UseDepDefaultContainment
+    # (c) sibling agreement of _UseDepDefaultContainment.match / force_True / force_False (modulo local names)
+    from ..core.mirror import alpha_canon
     UDC = P.cls("pkgcore.ebuild.restricts", "_UseDepDefaultContainment")
-    shapes = {}
+    forms = {}
     for name in ("match", "force_True", "force_False"):
         m = UDC.methods.get(name)
         ctx.require(m is not None, f"_UseDepDefaultContainment.{name} not found")
-        tests = [A.unparse(n.test) for n in m.node.body if isinstance(n, ast.If)]
-        rets = []
-        for n in m.node.body:
-            if isinstance(n, ast.If):
-                r = [x for x in n.body if isinstance(x, ast.Return)]
-                rets.append(A.unparse(r[0].value).replace(name, "<same>") if r else None)
-            elif isinstance(n, ast.Return):
-                rets.append(A.unparse(n.value))
-        shapes[name] = (tests, [("<delegate>" if r and "<same>" in r else r) for r in rets])
         deleg = [c for c in A.calls(m.node) if isinstance(c.func, ast.Attribute) and c.func.attr in ("match", "force_True", "force_False") and "ContainmentMatch" in A.unparse(c.func)]
         ctx.check("R3", m, deleg and all(c.func.attr == name for c in deleg), f"delegates-same:{name}", f"{name} delegates to ContainmentMatch.{name}", node=m.node)
-    ref = shapes["match"]
-    want_tests = ["reduced_vals.issubset(iuse_stripped)", "self.if_missing == self.negate", "reduced_vals"]
-    ctx.check("R3", UDC.methods["match"], ref[0] == want_tests and ref[1] == ["<delegate>", "False", "<delegate>", "True"], "default-case-split",
-              "match: flags all in IUSE -> plain match; default contradicts request -> False; remaining flags -> match those; none left -> True",
-              f"_UseDepDefaultContainment.match case split is {ref}")
+        # normalise: the delegation call (whatever its extra arguments) becomes <delegate>(override?)
+        class _D(ast.NodeTransformer):
+            def visit_Call(self, node):
+                self.generic_visit(node)
+                if isinstance(node.func, ast.Attribute) and node.func.attr == name and "ContainmentMatch" in A.unparse(node.func.value):
+                    ov = [a for a in node.args[1:] if isinstance(a, ast.Name) and not (isinstance(a, ast.Name) and a.id in ("self", "pkg"))]
+                    ov += [k.value for k in node.keywords if k.arg == "_values_override"]
+                    names = sorted({x.id for a in ov for x in ast.walk(a) if isinstance(x, ast.Name)} - set(m.params()) | {x.id for k in node.keywords if k.arg == "_values_override" for x in ast.walk(k.value) if isinstance(x, ast.Name)})
+                    return ast.Call(func=ast.Name(id="DELEGATE", ctx=ast.Load()), args=[ast.Name(id=n_, ctx=ast.Load()) for n_ in names], keywords=[])
+                return node
+        from ..core.mirror import clone
+        body = [_D().visit(clone(st)) for st in m.node.body]
+        fake = ast.FunctionDef(name=name, args=ast.arguments(posonlyargs=[], args=[ast.arg(arg="self"), ast.arg(arg="val")], kwonlyargs=[], kw_defaults=[], defaults=[]), body=body, decorator_list=[])
+        forms[name] = alpha_canon(fake)
+    ref = forms["match"]
     for name in ("force_True", "force_False"):
-        ctx.check("R3", UDC.methods[name], shapes[name] == ref, f"sibling-case-split:{name}", f"{name} has the same case split as match", f"{name}: {shapes[name]} vs match: {ref}")
+        ctx.check("R3", UDC.methods[name], forms[name] == ref, f"sibling-case-split:{name}", f"{name} has the same case split and reduction as match (modulo local names)",
+                  f"_UseDepDefaultContainment.{name} and .match disagree:\n      {name}: {forms[name]}\n      match: {ref}")
+    # the case split itself (roles, not names): unpack val -> (iuse, use); all wanted in iuse -> plain; default contradicts -> False;
+    # reduce wanted by iuse; something left -> delegate on it; nothing left -> True
+    m = UDC.methods["match"]
+    unpack = [n for n in m.node.body if isinstance(n, ast.Assign) and isinstance(n.targets[0], ast.Tuple) and len(n.targets[0].elts) == 2 and A.unparse(n.value) == m.params()[1]]
+    ctx.require(unpack, "_UseDepDefaultContainment.match: `iuse, use = val` unpacking not found")
+    iuse_v, use_v = (A.unparse(e) for e in unpack[0].targets[0].elts)
+    inter = [c for c in A.calls(m.node) if A.call_attr(c) == "intersection"]
+    ctx.check("R3", m, len(inter) == 1 and [A.unparse(a) for a in inter[0].args] == [iuse_v], "default-reduction",
+              "flags missing from IUSE are dropped by intersecting the wanted flags with IUSE (first element of the value pair)",
+              f"the wanted flags are reduced with {[A.unparse(a) for c in inter for a in c.args]} instead of the IUSE set `{iuse_v}`: flags in IUSE but disabled drop out of the check", node=inter[0] if inter else m.node)
+    sub = [c for c in A.calls(m.node) if A.call_attr(c) == "issubset"]
+    ctx.check("R3", m, len(sub) == 1 and [A.unparse(a) for a in sub[0].args] == [iuse_v], "default-all-known", "the plain path is taken when every wanted flag is in IUSE")
+    tests = [A.unparse(n.test) for n in m.node.body if isinstance(n, ast.If)]
+    rets = []
+    for n in m.node.body:
+        if isinstance(n, ast.If):
+            r = [x for x in n.body if isinstance(x, ast.Return)]
+            rets.append("<delegate>" if r and "ContainmentMatch.match" in A.unparse(r[0]) else (A.unparse(r[0].value) if r else None))
+        elif isinstance(n, ast.Return):
+            rets.append(A.unparse(n.value))
+    ctx.check("R3", m, len(tests) == 3 and tests[1] in ("self.if_missing == self.negate", "self.negate == self.if_missing") and rets == ["<delegate>", "False", "<delegate>", "True"], "default-case-split",
+              "match: all flags known -> plain; default contradicts the request -> False; remaining known flags -> match those; none left -> True",
+              f"_UseDepDefaultContainment.match case split is tests={tests} returns={rets}")
     ctx.floor("R3", 16)
 
 
